@@ -439,3 +439,554 @@ VP_REQUIRE_LABELS (frames_f, C09_FRAME_LABELS)
 VP_RANDOM (frames_d, 500000, 8000000, C09_FRAMES_RULE) { frames_case<double> (c); }
 VP_LABELS (frames_d, C09_FRAME_LABELS)
 VP_REQUIRE_LABELS (frames_d, C09_FRAME_LABELS)
+
+// ===================================================================================================================
+// 3b. exact relations between the direction arguments (frames_exact_*)
+//     alignZAxisWithTargetDir / rotationMatrixWithUpDir promise a valid frame when target and up are EXACTLY parallel.
+//     The library recognises that case by an exact test on a cross product, which is only exact when every product
+//     is: the pairs are (m v, +-(p/q) v) 2^e for a small-integer direction v (|c| <= 16) and a ratio that is never a
+//     power of two (55 ratios x 2 signs x 35936 directions; the pair is a pure function of six one-byte draws, so
+//     that a run covers some 10^5 distinct (direction, ratio) pairs).  Any normalisation, rescaling or reordering in
+//     front of the test turns the exact zero into rounding noise for a minority of the pairs (seeded change C09-r3-1).
+//     Also: rotationMatrix with to == from, to = k from, to = -from, to = -k from (ImathQuat.h handles "exactly
+//     opposite" explicitly); nextFrame with tj == ti and tj = k ti; computeLocalFrame / alignZAxisWithTargetDir with
+//     an exactly perpendicular integer pair (the normal / the up vector is then itself the z / y axis); firstFrame
+//     with collinear points along a direction whose non-zero coordinates have equal magnitude (the cross product of
+//     the normalised tangent is exactly zero: the documented "arbitrary twist" branch, with ties in its |t.x| < |t.y|,
+//     |t.z| < |t[i]| comparisons).
+// ===================================================================================================================
+enum
+{
+    X_ALIGN,
+    X_ROTUP,
+    X_ROTMAT,
+    X_NEXT,
+    X_LOCAL_PERP,
+    X_ALIGN_PERP,
+    X_FIRST_TIE,
+    X_NOPS,
+    XL_ANTIPARALLEL = X_NOPS,
+    XL_PARALLEL,
+    XL_RATIONAL_RATIO,
+    XL_INTEGER_RATIO,
+    XL_FROM_ZERO,
+    XL_FROM_ALONG_Y,
+    XL_FROM_EQ_TO,
+    XL_FROM_OPP_TO,
+    XL_FROM_INTEGER,
+    XL_ROTMAT_EQUAL,
+    XL_ROTMAT_MULTIPLE,
+    XL_ROTMAT_OPPOSITE,
+    XL_ROTMAT_NEG_MULTIPLE,
+    XL_NEXT_EQUAL,
+    XL_NEXT_MULTIPLE,
+    XL_FIRST_PK_EQ_PI
+};
+#define C09_EXACT_LABELS                                                                                               \
+    "alignZAxisWithTargetDir_exactly_parallel", "rotationMatrixWithUpDir_exactly_parallel", "rotationMatrix_exactly_parallel_or_opposite", "nextFrame_exactly_parallel_tangents", "computeLocalFrame_exactly_perpendicular", "alignZAxisWithTargetDir_exactly_perpendicular", "firstFrame_collinear_equal_magnitude_direction", "antiparallel", "parallel", "ratio_dyadic_rational", "ratio_integer", "from_zero", "from_along_y", "from_equals_to", "from_opposite_to", "from_small_integers", "rotationMatrix_to_equals_from", "rotationMatrix_to_multiple_of_from", "rotationMatrix_to_opposite_from", "rotationMatrix_to_negative_multiple_of_from", "nextFrame_tj_equals_ti", "nextFrame_tj_multiple_of_ti", "firstFrame_pk_equals_pi"
+static const int EXACT_OPS[] = { X_ALIGN, X_ALIGN, X_ALIGN, X_ALIGN, X_ALIGN, X_ROTUP, X_ROTUP, X_ROTUP, X_ROTUP, X_ROTUP, X_ROTMAT, X_ROTMAT, X_NEXT, X_LOCAL_PERP, X_ALIGN_PERP, X_FIRST_TIE };
+
+// nextFrame obtains its rotation angle from acosf (dot): for tangents closer than ~sqrt(eps_float) the angle is
+// wrong by up to the angle itself (acos (1 - k eps) = sqrt (2 k eps)), whatever the element type; the rotation then
+// is one by at most ~2 sqrt (eps_float) = 6.9e-4 rad about some axis.  Measured worst: 0.24 of this cap (float), 0 (double)
+// for exactly parallel tangents; see frames_near_* for nearly parallel ones.
+static inline quad next_cap () { return 6 * sqrtq (EPSF ()); }
+
+template <class T> static void fill_garbage (Matrix44<T>& G, int gb)
+{
+    for (int i = 0; i < 4; ++i)
+        for (int j = 0; j < 4; ++j)
+            G[i][j] = (T) (gb - 100 + 4 * i + j) + (T) 0.5; // every slot of the output argument must be written
+}
+
+template <class T> static void frames_exact_case (vp::Ctx& c)
+{
+    vp::Src&   s   = c.s;
+    int        op  = s.pick (EXACT_OPS);
+    const quad eps = EPS<T> ();
+    c.label (op);
+    c.nt ();
+    switch (op)
+    {
+        case X_ALIGN:
+        {
+            Vec3<T> t, u;
+            bool    anti, rat;
+            gen_exact_parallel<T> (s, t, u, anti, rat);
+            int gb = (int) s.byte ();
+            c.label (anti ? XL_ANTIPARALLEL : XL_PARALLEL);
+            c.label (rat ? XL_RATIONAL_RATIO : XL_INTEGER_RATIO);
+            VP_NOTE (c, TN<T>::n () << " alignZAxisWithTargetDir (exactly parallel) target=" << vstr (t, 3) << " up=" << vstr (u, 3));
+            Matrix44<T> G;
+            fill_garbage (G, gb);
+            alignZAxisWithTargetDir (G, t, u);
+            check_frame<T> (c, "alignZAxis-exact", G, ft (eps, 12)); // measured 2.2 eps (2.7e6 cases per type)
+            VP_REQUIRE (c, G[3][0] == 0 && G[3][1] == 0 && G[3][2] == 0, "alignZAxis-exact/origin", "alignZAxisWithTargetDir has a translation: " << mstr (G, 4));
+            check_row<T> (c, "alignZAxis-exact/z-axis", "alignZAxisWithTargetDir z axis vs target/|target|", G, 2, unit (toq (t)), ft (eps, 6)); // measured 0.66 eps
+            break;
+        }
+        case X_ROTUP:
+        {
+            Vec3<T> t, u, f;
+            bool    anti, rat;
+            gen_exact_parallel<T> (s, t, u, anti, rat);
+            c.label (anti ? XL_ANTIPARALLEL : XL_PARALLEL);
+            c.label (rat ? XL_RATIONAL_RATIO : XL_INTEGER_RATIO);
+            int fc = (int) s.below (8);
+            switch (fc)
+            {
+                case 0:
+                    f = gen_zero<T> (s);
+                    c.label (XL_FROM_ZERO);
+                    break;
+                case 1:
+                {
+                    int y = (int) s.range (-16, 15);
+                    f     = Vec3<T> (0, (T) (y >= 0 ? y + 1 : y), 0);
+                    c.label (XL_FROM_ALONG_Y);
+                    break;
+                }
+                case 2:
+                    f = t;
+                    c.label (XL_FROM_EQ_TO);
+                    break;
+                case 3:
+                    f = -t;
+                    c.label (XL_FROM_OPP_TO);
+                    break;
+                case 4:
+                case 5:
+                    f = gen_intdir<T> (s);
+                    c.label (XL_FROM_INTEGER);
+                    break;
+                default: f = gen_dir<T> (s); break;
+            }
+            VP_NOTE (c, TN<T>::n () << " rotationMatrixWithUpDir (to, up exactly parallel) from=" << vstr (f, 3) << " to=" << vstr (t, 3) << " up=" << vstr (u, 3));
+            Matrix44<T> G = rotationMatrixWithUpDir (f, t, u);
+            check_frame<T> (c, "rotationMatrixWithUpDir-exact", G, ft (eps, 20)); // measured 4.0 eps
+            VP_REQUIRE (c, G[3][0] == 0 && G[3][1] == 0 && G[3][2] == 0, "rotationMatrixWithUpDir-exact/origin", "rotationMatrixWithUpDir has a translation: " << mstr (G, 4));
+            if (!is_zero (f))
+            {
+                Q3 img = mulq (unit (toq (f)), G), want = unit (toq (t));
+                for (int j = 0; j < 3; ++j)
+                {
+                    C09_MEAS (std::string ("rotationMatrixWithUpDir-exact/from-to|") + TN<T>::n () + "|err/eps", qabs (img[j] - want[j]) / eps);
+                    VP_REQUIRE (c, qabs (img[j] - want[j]) <= 10 * eps, "rotationMatrixWithUpDir-exact/from-to", TN<T>::n () << " from^ * R = " << q3str (img) << " expected to^ = " << q3str (want) << " R=" << mstr (G, 4)); // measured 1.9 eps
+                }
+            }
+            break;
+        }
+        case X_ROTMAT:
+        {
+            Vec3<T> f, t;
+            bool    anti, rat;
+            gen_exact_parallel<T> (s, f, t, anti, rat);
+            bool same_len = s.coin ();
+            if (same_len) t = anti ? -f : f;
+            c.label (anti ? XL_ANTIPARALLEL : XL_PARALLEL);
+            c.label (same_len ? (anti ? XL_ROTMAT_OPPOSITE : XL_ROTMAT_EQUAL) : (anti ? XL_ROTMAT_NEG_MULTIPLE : XL_ROTMAT_MULTIPLE));
+            VP_NOTE (c, TN<T>::n () << " rotationMatrix (exactly " << (anti ? "opposite" : "parallel") << ") from=" << vstr (f, 3) << " to=" << vstr (t, 3));
+            Matrix44<T> G = rotationMatrix (f, t);
+            // measured: orthonormality 8.0 eps, from->to 1.3 eps (parallel), 2.7 eps (opposite), identity slots 1.5 eps
+            check_frame<T> (c, "rotationMatrix-exact", G, ft (eps, 40));
+            VP_REQUIRE (c, G[3][0] == 0 && G[3][1] == 0 && G[3][2] == 0, "rotationMatrix-exact/origin", "rotationMatrix has a translation: " << mstr (G, 4));
+            Q3 img = mulq (unit (toq (f)), G), want = unit (toq (t));
+            for (int j = 0; j < 3; ++j)
+            {
+                C09_MEAS (std::string ("rotationMatrix-exact/from-to|") + TN<T>::n () + (anti ? "|opposite" : "|parallel") + "|err/eps", qabs (img[j] - want[j]) / eps);
+                VP_REQUIRE (c, qabs (img[j] - want[j]) <= 16 * eps, "rotationMatrix-exact/from-to", TN<T>::n () << " from^ * R = " << q3str (img) << " expected to^ = " << q3str (want) << " R=" << mstr (G, 4));
+            }
+            if (!anti) check_slots<T> (c, "rotationMatrix-exact/identity", "rotationMatrix of parallel directions vs identity", G, QM<4> (), 3, ft (eps, 12));
+            break;
+        }
+        case X_NEXT:
+        {
+            Vec3<T> ti, tj;
+            bool    anti, rat;
+            gen_exact_parallel<T> (s, ti, tj, anti, rat);
+            if (anti) tj = -tj;
+            bool equal = s.coin ();
+            if (equal) tj = ti;
+            c.label (equal ? XL_NEXT_EQUAL : XL_NEXT_MULTIPLE);
+            Vec3<T>     pi = gen_spoint<T> (s);
+            Vec3<T>     pj = gen_spoint<T> (s);
+            Matrix44<T> Mi = gen_frame_along<T> (s, ti, pi);
+            VP_NOTE (c, TN<T>::n () << " nextFrame (tangents exactly parallel) Mi=" << mstr (Mi, 4) << " pi=" << vstr (pi, 3) << " pj=" << vstr (pj, 3) << " ti=" << vstr (ti, 3) << " tj=" << vstr (tj, 3));
+            Vec3<T>     ti2 = ti, tj2 = tj;
+            Matrix44<T> G = nextFrame (Mi, pi, pj, ti2, tj2);
+            check_frame<T> (c, "nextFrame-exact", G, ft (eps, 48)); // measured 2.1 eps (the rotation, when there is one, is tiny)
+            // no rotation between parallel tangents: the axes of the previous frame (exactly, when tj == ti: the cross
+            // product of two identical vectors is exactly zero), origin moved from pi to pj
+            FT tr = equal ? ft (eps, 2) : FT{ next_cap (), 0, 1, 0 };
+            check_slots<T> (c, equal ? "nextFrame-exact/equal-tangents-axes" : "nextFrame-exact/parallel-tangents-axes", "nextFrame axes vs previous frame", G, QM<4>::from (Mi), 3, tr);
+            for (int j = 0; j < 3; ++j)
+            {
+                quad tol = 4 * eps * (qabs ((quad) pi[j]) + qabs ((quad) pj[j])); // (the rotation, if any, is about pi: the origin does not move)
+                VP_REQUIRE (c, qabs ((quad) G[3][j] - (quad) pj[j]) <= tol, "nextFrame-exact/origin", TN<T>::n () << " origin row of " << mstr (G, 4) << " is not pj=" << vstr (pj, 3));
+            }
+            break;
+        }
+        case X_LOCAL_PERP:
+        {
+            Vec3<T> xd, n;
+            gen_exact_perp<T> (s, xd, n);
+            int fl = (int) s.byte ();
+            xd *= (T) (1 + (fl & 7));
+            n *= (T) (1 + ((fl >> 3) & 7));
+            if (fl & 64) n = -n;
+            Vec3<T> p = gen_spoint<T> (s);
+            VP_NOTE (c, TN<T>::n () << " computeLocalFrame (exactly perpendicular) p=" << vstr (p, 3) << " xDir=" << vstr (xd, 3) << " normal=" << vstr (n, 3));
+            Matrix44<T> G  = computeLocalFrame (p, xd, n);
+            FT          t1 = ft (eps, 8, 3, 1);
+            check_frame<T> (c, "computeLocalFrame-exact", G, ft (eps, 12, 3, 1)); // measured 2.6 eps
+            VP_REQUIRE (c, same<T> (G[3][0], p.x) && same<T> (G[3][1], p.y) && same<T> (G[3][2], p.z), "computeLocalFrame-exact/origin", TN<T>::n () << " origin row of " << mstr (G, 4) << " is not p=" << vstr (p, 3));
+            Q3 x = unit (toq (xd));
+            check_row<T> (c, "computeLocalFrame-exact/x-axis", "computeLocalFrame x axis vs xDir/|xDir|", G, 0, x, ft (eps, 6));
+            Q3 y = unit (cross (toq (n), x)), z = cross (x, y);
+            check_slots<T> (c, "computeLocalFrame-exact/normal", "computeLocalFrame vs (x, normal x x, x x y)", G, frameQ (x, y, z, toq (p)), 3, t1); // measured 1.3 eps (also for z vs normal)
+            // documented: "If the x axis and normal are perpendicular, then the normal will have the same direction as the z axis"
+            check_row<T> (c, "computeLocalFrame-exact/z-is-normal", "computeLocalFrame z axis vs normal/|normal| (perpendicular pair)", G, 2, unit (toq (n)), t1);
+            break;
+        }
+        case X_ALIGN_PERP:
+        {
+            Vec3<T> t, u;
+            gen_exact_perp<T> (s, t, u);
+            int fl = (int) s.byte ();
+            t *= (T) (1 + (fl & 7));
+            u *= (T) (1 + ((fl >> 3) & 7));
+            if (fl & 64) u = -u;
+            if (fl & 128)
+            {
+                Vec3<T> w = t;
+                t         = u;
+                u         = w;
+            }
+            VP_NOTE (c, TN<T>::n () << " alignZAxisWithTargetDir (exactly perpendicular) target=" << vstr (t, 3) << " up=" << vstr (u, 3));
+            Matrix44<T> G;
+            fill_garbage (G, fl);
+            alignZAxisWithTargetDir (G, t, u);
+            FT t1 = ft (eps, 8, 3, 1);
+            check_frame<T> (c, "alignZAxis-perp", G, ft (eps, 12, 3, 1)); // measured 2.6 eps
+            VP_REQUIRE (c, G[3][0] == 0 && G[3][1] == 0 && G[3][2] == 0, "alignZAxis-perp/origin", "alignZAxisWithTargetDir has a translation: " << mstr (G, 4));
+            check_row<T> (c, "alignZAxis-perp/z-axis", "alignZAxisWithTargetDir z axis vs target/|target|", G, 2, unit (toq (t)), ft (eps, 6));
+            check_slots<T> (c, "alignZAxis-perp/up", "alignZAxisWithTargetDir vs (up x target, z x x, target)", G, alignQ (toq (t), toq (u)), 3, t1); // measured 1.1 eps (also for y vs up)
+            check_row<T> (c, "alignZAxis-perp/y-is-up", "alignZAxisWithTargetDir y axis vs up/|up| (perpendicular pair)", G, 1, unit (toq (u)), t1);
+            break;
+        }
+        default: // X_FIRST_TIE
+        {
+            int di = (int) s.below (26);
+            if (di >= 13) ++di; // skip (0,0,0)
+            int     dx = di % 3 - 1, dy = (di / 3) % 3 - 1, dz = di / 9 - 1;
+            int     n1 = (int) s.range (1, 64);
+            int     n2 = (int) s.range (-64, 64);
+            Vec3<T> pi = gen_intdir<T> (s, 64);
+            T       c1 = (T) n1 / (T) 8, c2 = (T) n2 / (T) 8;
+            if (s.coin ()) c1 = -c1;
+            Vec3<T> d ((T) dx, (T) dy, (T) dz);
+            Vec3<T> pj = pi + d * c1, pk = pi + d * c2; // exact: integers + multiples of 1/8 below 2^7
+            if (n2 == 0) c.label (XL_FIRST_PK_EQ_PI);
+            VP_NOTE (c, TN<T>::n () << " firstFrame (collinear, direction (" << dx << " " << dy << " " << dz << ")) pi=" << vstr (pi, 3) << " pj=" << vstr (pj, 3) << " pk=" << vstr (pk, 3));
+            Matrix44<T> G = firstFrame (pi, pj, pk);
+            check_frame<T> (c, "firstFrame-tie", G, ft (eps, 8)); // measured 2.0 eps; tangent 0.41 eps
+            VP_REQUIRE (c, same<T> (G[3][0], pi.x) && same<T> (G[3][1], pi.y) && same<T> (G[3][2], pi.z), "firstFrame-tie/origin", TN<T>::n () << " origin row of " << mstr (G, 4) << " is not pi=" << vstr (pi, 3));
+            check_row<T> (c, "firstFrame-tie/tangent", "firstFrame x axis vs (pj-pi)/|pj-pi|", G, 0, unit (toq (pj) - toq (pi)), ft (eps, 4));
+            break;
+        }
+    }
+}
+#define C09_EXACT_RULE                                                                                                 \
+    "exactly related direction arguments: (5/16 each) alignZAxisWithTargetDir (target, up) and rotationMatrixWithUpDir (to, up) with the pair (m v, +-(p/q) v) 2^e, v small integers |c| <= 16, p/(q m) one of 55 ratios 3..31, p/2 .. p/16 (never a power of two), e in [-6,6], either order; from zero / along y / == to / == -to / small integers / generic; (1/8) rotationMatrix with to == from, to = k from, to = -from, to = -k from; (1/16 each) nextFrame with tj == ti or tj = k ti; computeLocalFrame and alignZAxisWithTargetDir with an exactly perpendicular integer pair; firstFrame with collinear points along a direction from {-1,0,1}^3; oracle = orthonormal right-handed frame with z axis target^ (resp. from^ -> to^, identity, the previous axes, normal = z, up = y); every case non-trivial"
+VP_RANDOM (frames_exact_f, 340000, 6000000, C09_EXACT_RULE) { frames_exact_case<float> (c); }
+VP_LABELS (frames_exact_f, C09_EXACT_LABELS)
+VP_REQUIRE_LABELS (frames_exact_f, C09_EXACT_LABELS)
+VP_RANDOM (frames_exact_d, 340000, 6000000, C09_EXACT_RULE) { frames_exact_case<double> (c); }
+VP_LABELS (frames_exact_d, C09_EXACT_LABELS)
+VP_REQUIRE_LABELS (frames_exact_d, C09_EXACT_LABELS)
+
+// ===================================================================================================================
+// 3c. direction pairs AT and NEAR the special cases of the frame builders (frames_near_*)
+//     Pairs at an angle of 2^-k, pi/2 +- 2^-k and pi - 2^-k (k = 4 .. digits+3, constructed in quad and rounded),
+//     directions of length 1 +- 2^-k, origins with coordinates up to 2^20.  A tolerance-based shortcut ("the normal
+//     is perpendicular to the x axis: it is the z axis", "up is parallel to the target: choose another up", "the
+//     tangents are parallel: no rotation", "the axis has unit length") is wrong in this band by the size of its
+//     tolerance, while the bounds below are eps * (c1 + c2 K) with K = 1 / sin (angle) computed in quad on the rounded
+//     inputs - a few eps at right angles.  For pairs closer to parallel than the precision resolves the bound
+//     exceeds 1 and checks nothing (the statement excludes nearly parallel pairs); exactly parallel pairs (in
+//     exact arithmetic) get the degenerate-case checks for alignZAxisWithTargetDir / rotationMatrixWithUpDir and
+//     are skipped for the others.
+// ===================================================================================================================
+enum
+{
+    N_LOCAL,
+    N_ALIGN,
+    N_ROTUP,
+    N_ROTMAT,
+    N_FIRST,
+    N_NEXT,
+    N_NOPS,
+    NFL_NEAR_PARALLEL = N_NOPS,
+    NFL_NEAR_PERPENDICULAR,
+    NFL_NEAR_OPPOSITE,
+    NFL_K_4_12,
+    NFL_K_13_DIGITS,
+    NFL_K_BEYOND_DIGITS,
+    NFL_EXACTLY_PARALLEL_AFTER_ROUNDING,
+    NFL_FROM_NEAR_Y,
+    NFL_FROM_ALONG_Y,
+    NFL_BOUND_BELOW_1E_3,
+    NFL_BOUND_VACUOUS
+};
+#define C09_NEARF_LABELS                                                                                               \
+    "computeLocalFrame", "alignZAxisWithTargetDir", "rotationMatrixWithUpDir", "rotationMatrix", "firstFrame", "nextFrame", "angle_2^-k", "angle_pi/2+-2^-k", "angle_pi-2^-k", "k_4..12", "k_13..digits-1", "k_digits..digits+3", "exactly_parallel_after_rounding", "from_near_y_axis", "from_along_y", "bound_below_1e-3", "bound_above_1/4_not_checked"
+static const int NEAR_OPS[] = { N_LOCAL, N_LOCAL, N_LOCAL, N_ALIGN, N_ALIGN, N_ALIGN, N_ROTUP, N_ROTUP, N_ROTMAT, N_ROTMAT, N_FIRST, N_FIRST, N_NEXT, N_NEXT };
+
+template <class T> static void label_near (vp::Ctx& c, int tc, int k)
+{
+    c.label (tc == 0 ? NFL_NEAR_PARALLEL : tc == 1 ? NFL_NEAR_PERPENDICULAR : NFL_NEAR_OPPOSITE);
+    c.label (k <= 12 ? NFL_K_4_12 : k < Dig<T>::n ? NFL_K_13_DIGITS : NFL_K_BEYOND_DIGITS);
+    c.nt ();
+}
+// returns false when the conditioning-scaled bound is too large to say anything (pair closer to parallel than the
+// precision resolves: the frame may legitimately differ by O(1), e.g. the arbitrary axis of a half turn)
+static inline bool label_bound (vp::Ctx& c, const FT& t)
+{
+    if (t.tol () < (quad) 1e-3) c.label (NFL_BOUND_BELOW_1E_3);
+    if (t.tol () > (quad) 0.25)
+    {
+        c.label (NFL_BOUND_VACUOUS);
+        return false;
+    }
+    return true;
+}
+
+template <class T> static void frames_near_case (vp::Ctx& c)
+{
+    vp::Src&   s   = c.s;
+    int        op  = s.pick (NEAR_OPS);
+    const quad eps = EPS<T> ();
+    int        k;
+    c.label (op);
+    switch (op)
+    {
+        case N_LOCAL:
+        {
+            Vec3<T> p = gen_spoint<T> (s), xd = gen_near_dir<T> (s), n;
+            int tcn = gen_near_partner<T> (s, xd, n, k);
+            label_near<T> (c, tcn, k);
+            VP_NOTE (c, TN<T>::n () << " computeLocalFrame (near) p=" << vstr (p, 3) << " xDir=" << vstr (xd, 3) << " normal=" << vstr (n, 3));
+            quad        sn = sin_between (toq (xd), toq (n));
+            Matrix44<T> G  = computeLocalFrame (p, xd, n);
+            VP_REQUIRE (c, (all_finite<Matrix44<T>, 4> (G)), "computeLocalFrame-near/nonfinite", TN<T>::n () << " computeLocalFrame returned " << mstr (G, 4));
+            if (!(sn > 0))
+            {
+                c.label (NFL_EXACTLY_PARALLEL_AFTER_ROUNDING);
+                break;
+            }
+            // measured (1.2e6 cases per type): orthonormality 2.5 eps (K<3), 0.36 K eps (K>=30); slots 1.2 eps, 0.67 K eps; x axis 1.1 eps
+            FT t1 = ft (eps, 8, 3, 1 / sn);
+            if (!label_bound (c, t1)) break;
+            check_frame<T> (c, "computeLocalFrame-near", G, ft (eps, 12, 3, 1 / sn));
+            VP_REQUIRE (c, same<T> (G[3][0], p.x) && same<T> (G[3][1], p.y) && same<T> (G[3][2], p.z), "computeLocalFrame-near/origin", TN<T>::n () << " origin row of " << mstr (G, 4) << " is not p=" << vstr (p, 3));
+            Q3 x = unit (toq (xd));
+            check_row<T> (c, "computeLocalFrame-near/x-axis", "computeLocalFrame x axis vs xDir/|xDir|", G, 0, x, ft (eps, 6));
+            Q3 y = unit (cross (toq (n), x)), z = cross (x, y);
+            check_slots<T> (c, "computeLocalFrame-near/normal", "computeLocalFrame vs (x, normal x x, x x y)", G, frameQ (x, y, z, toq (p)), 3, t1);
+            break;
+        }
+        case N_ALIGN:
+        {
+            Vec3<T> t = gen_near_dir<T> (s), u;
+            int tcn = gen_near_partner<T> (s, t, u, k);
+            label_near<T> (c, tcn, k);
+            int gb = (int) s.byte ();
+            if (s.coin ())
+            {
+                Vec3<T> w = t;
+                t         = u;
+                u         = w;
+            }
+            VP_NOTE (c, TN<T>::n () << " alignZAxisWithTargetDir (near) target=" << vstr (t, 3) << " up=" << vstr (u, 3));
+            quad        sn = sin_between (toq (t), toq (u));
+            Matrix44<T> G;
+            fill_garbage (G, gb);
+            alignZAxisWithTargetDir (G, t, u);
+            VP_REQUIRE (c, G[3][0] == 0 && G[3][1] == 0 && G[3][2] == 0, "alignZAxis-near/origin", "alignZAxisWithTargetDir has a translation: " << mstr (G, 4));
+            if (!(sn > 0))
+            {
+                c.label (NFL_EXACTLY_PARALLEL_AFTER_ROUNDING);
+                check_frame<T> (c, "alignZAxis-near-degenerate", G, ft (eps, 12));
+                check_row<T> (c, "alignZAxis-near-degenerate/z-axis", "alignZAxisWithTargetDir z axis vs target/|target|", G, 2, unit (toq (t)), ft (eps, 6));
+                break;
+            }
+            // measured: orthonormality 2.4 eps (K<3), 0.37 K eps (K>=30); slots 1.2 eps, 0.46 K eps; z axis 1.3 eps; degenerate 2.1 / 0.76 eps
+            FT t1 = ft (eps, 8, 3, 1 / sn);
+            if (!label_bound (c, t1)) break;
+            check_frame<T> (c, "alignZAxis-near", G, ft (eps, 12, 3, 1 / sn));
+            check_row<T> (c, "alignZAxis-near/z-axis", "alignZAxisWithTargetDir z axis vs target/|target|", G, 2, unit (toq (t)), ft (eps, 6));
+            check_slots<T> (c, "alignZAxis-near/up", "alignZAxisWithTargetDir vs (up x target, z x x, target)", G, alignQ (toq (t), toq (u)), 3, t1);
+            break;
+        }
+        case N_ROTUP:
+        {
+            // from: generic, within 2^-k of the world up (0,1,0) that rotationMatrixWithUpDir pairs it with, or exactly along y
+            Vec3<T> f, t = gen_near_dir<T> (s), u;
+            int     kf = 0;
+            int tcn = gen_near_partner<T> (s, t, u, k);
+            label_near<T> (c, tcn, k);
+            int fc = (int) s.below (4);
+            if (fc == 0)
+            {
+                gen_near_partner<T> (s, Vec3<T> (0, 1, 0), f, kf);
+                c.label (NFL_FROM_NEAR_Y);
+            }
+            else if (fc == 1)
+            {
+                f = Vec3<T> (0, s.coin () ? (T) -1 : (T) 1, 0);
+                c.label (NFL_FROM_ALONG_Y);
+            }
+            else
+                f = gen_near_dir<T> (s);
+            VP_NOTE (c, TN<T>::n () << " rotationMatrixWithUpDir (near) from=" << vstr (f, 3) << " to=" << vstr (t, 3) << " up=" << vstr (u, 3));
+            bool along_y = f.x == 0 && f.z == 0;
+            quad sn = sin_between (toq (t), toq (u));
+            quad Kf = along_y ? (quad) 0 : 1 / sin_between (toq (f), Q3{ 0, 1, 0 });
+            Matrix44<T> G = rotationMatrixWithUpDir (f, t, u);
+            VP_REQUIRE (c, G[3][0] == 0 && G[3][1] == 0 && G[3][2] == 0, "rotationMatrixWithUpDir-near/origin", "rotationMatrixWithUpDir has a translation: " << mstr (G, 4));
+            quad K  = Kf + (sn > 0 ? 1 / sn : (quad) 0);
+            FT   t1 = ft (eps, 10, 3, K);
+            FT   tf = ft (eps, 10, 3, Kf);
+            if (!(sn > 0)) c.label (NFL_EXACTLY_PARALLEL_AFTER_ROUNDING);
+            // measured: orthonormality 3.5 eps (K<3), 0.87 K eps (K<30), 0.35 K eps (K>=30); slots 1.8 eps, 0.43 K eps; from->to 1.9 eps, 0.5 Kf eps
+            // from^ -> to^ depends on the conditioning of the pair (from, world up) only
+            if (tf.tol () <= (quad) 0.25)
+            {
+                Q3 img = mulq (unit (toq (f)), G), want = unit (toq (t));
+                for (int j = 0; j < 3; ++j)
+                {
+                    C09_MEAS_FT (std::string ("rotationMatrixWithUpDir-near/from-to|") + TN<T>::n (), qabs (img[j] - want[j]), tf);
+                    VP_REQUIRE (c, qabs (img[j] - want[j]) <= tf.tol (), "rotationMatrixWithUpDir-near/from-to", TN<T>::n () << " from^ * R = " << q3str (img) << " expected to^ = " << q3str (want) << " (bound " << qstr (tf.tol ()) << ") R=" << mstr (G, 4));
+                }
+            }
+            if (!label_bound (c, t1)) break;
+            check_frame<T> (c, "rotationMatrixWithUpDir-near", G, ft (eps, 20, 3, K));
+            if (!along_y && sn > 0)
+            {
+                QM<4> E = transpose (alignQ (toq (f), Q3{ 0, 1, 0 })) * alignQ (toq (t), toq (u));
+                check_slots<T> (c, "rotationMatrixWithUpDir-near/up", "rotationMatrixWithUpDir vs align(from,(0,1,0))^T * align(to,up)", G, E, 3, t1);
+            }
+            break;
+        }
+        case N_ROTMAT:
+        {
+            Vec3<T> f = gen_near_dir<T> (s), t;
+            int tcn = gen_near_partner<T> (s, f, t, k);
+            label_near<T> (c, tcn, k);
+            VP_NOTE (c, TN<T>::n () << " rotationMatrix (near) from=" << vstr (f, 3) << " to=" << vstr (t, 3));
+            Q3          fq = toq (f), tq = toq (t);
+            quad        sn = sin_between (fq, tq);
+            Matrix44<T> G  = rotationMatrix (f, t);
+            VP_REQUIRE (c, (all_finite<Matrix44<T>, 4> (G)), "rotationMatrix-near/nonfinite", TN<T>::n () << " rotationMatrix returned " << mstr (G, 4));
+            VP_REQUIRE (c, G[3][0] == 0 && G[3][1] == 0 && G[3][2] == 0, "rotationMatrix-near/origin", "rotationMatrix has a translation: " << mstr (G, 4));
+            if (!(sn > 0))
+            {
+                c.label (NFL_EXACTLY_PARALLEL_AFTER_ROUNDING); // covered by frames_exact_*
+                break;
+            }
+            quad th = atan2q (len (cross (fq, tq)), dot (fq, tq));
+            // measured: orthonormality 11 eps (K<3), 0.9 K eps; from->to / slots 6.9 eps (K<3), 0.54 K eps, K = 1 / cos (theta/2)
+            FT   t1 = ft (eps, 40, 3, 1 / cosq (th / 2));
+            if (!label_bound (c, t1)) break;
+            check_frame<T> (c, "rotationMatrix-near", G, ft (eps, 80, 3, t1.K));
+            Q3 img = mulq (unit (fq), G), want = unit (tq);
+            for (int j = 0; j < 3; ++j)
+            {
+                C09_MEAS_FT (std::string ("rotationMatrix-near/from-to|") + TN<T>::n (), qabs (img[j] - want[j]), t1);
+                VP_REQUIRE (c, qabs (img[j] - want[j]) <= t1.tol (), "rotationMatrix-near/from-to", TN<T>::n () << " from^ * R = " << q3str (img) << " expected to^ = " << q3str (want) << " (bound " << qstr (t1.tol ()) << ") R=" << mstr (G, 4));
+            }
+            Q3    ax = cross (fq, tq);
+            QM<4> E  = rodrigues_rowvec<4> (ax.x, ax.y, ax.z, th);
+            check_slots<T> (c, "rotationMatrix-near/axis", "rotationMatrix vs rotation about from x to", G, E, 3, t1);
+            break;
+        }
+        case N_FIRST:
+        {
+            Vec3<T> pi = gen_point<T> (s), a = gen_near_dir<T> (s), b;
+            int     tc = gen_near_partner<T> (s, a, b, k);
+            if (a.length () < (T) 0.0625) a *= (T) 64;
+            Vec3<T> pj = pi + a, pk = pi + b;
+            label_near<T> (c, tc, k);
+            VP_NOTE (c, TN<T>::n () << " firstFrame (near) pi=" << vstr (pi, 3) << " pj=" << vstr (pj, 3) << " pk=" << vstr (pk, 3));
+            Q3 d1 = toq (pj) - toq (pi), d2 = toq (pk) - toq (pi);
+            if (!(len (d1) > 0)) c.discard ("pj == pi after rounding");
+            quad sn = len (d2) > 0 ? sin_between (d1, d2) : (quad) 0;
+            Matrix44<T> G = firstFrame (pi, pj, pk);
+            VP_REQUIRE (c, (all_finite<Matrix44<T>, 4> (G)), "firstFrame-near/nonfinite", TN<T>::n () << " firstFrame returned " << mstr (G, 4));
+            VP_REQUIRE (c, same<T> (G[3][0], pi.x) && same<T> (G[3][1], pi.y) && same<T> (G[3][2], pi.z), "firstFrame-near/origin", TN<T>::n () << " origin row of " << mstr (G, 4) << " is not pi=" << vstr (pi, 3));
+            check_row<T> (c, "firstFrame-near/tangent", "firstFrame x axis vs (pj-pi)/|pj-pi|", G, 0, unit (d1), ft (eps, 6));
+            if (!(sn > 0))
+            {
+                c.label (NFL_EXACTLY_PARALLEL_AFTER_ROUNDING); // collinear: arbitrary twist, see firstFrame_collinear_* classes
+                break;
+            }
+            // measured: orthonormality 4.5 eps (K<3), 0.40 K eps (K>=30); y.(pk-pi) 0.82 eps, 0.40 K eps; tangent 1.1 eps
+            FT t1 = ft (eps, 6, 3, 1 / sn);
+            if (!label_bound (c, t1)) break;
+            check_frame<T> (c, "firstFrame-near", G, ft (eps, 18, 3, 1 / sn));
+            Q3   n  = Q3{ (quad) G[1][0], (quad) G[1][1], (quad) G[1][2] };
+            quad pd = qabs (dot (n, unit (d2)));
+            C09_MEAS_FT (std::string ("firstFrame-near/normal-plane|") + TN<T>::n (), pd, t1);
+            VP_REQUIRE (c, pd <= t1.tol (), "firstFrame-near/normal-plane", TN<T>::n () << " y axis " << q3str (n) << " is not normal to pk-pi (dot = " << qstr (pd) << ", bound " << qstr (t1.tol ()) << ")");
+            break;
+        }
+        default: // N_NEXT
+        {
+            Vec3<T> pi = gen_spoint<T> (s), pj = gen_spoint<T> (s);
+            Vec3<T> ti = gen_near_dir<T> (s), tj;
+            int     tc = gen_near_partner<T> (s, ti, tj, k);
+            label_near<T> (c, tc, k);
+            Matrix44<T> Mi = gen_frame_along<T> (s, ti, pi);
+            VP_NOTE (c, TN<T>::n () << " nextFrame (near) Mi=" << mstr (Mi, 4) << " pi=" << vstr (pi, 3) << " pj=" << vstr (pj, 3) << " ti=" << vstr (ti, 3) << " tj=" << vstr (tj, 3));
+            Q3          tiq = toq (ti), tjq = toq (tj);
+            quad        sn = sin_between (tiq, tjq);
+            Vec3<T>     ti2 = ti, tj2 = tj;
+            Matrix44<T> G = nextFrame (Mi, pi, pj, ti2, tj2);
+            check_frame<T> (c, "nextFrame-near", G, ft (eps, 48)); // measured 9.5 eps
+            for (int j = 0; j < 3; ++j)
+            {
+                quad tol = 4 * eps * (qabs ((quad) pi[j]) + qabs ((quad) pj[j]));
+                VP_REQUIRE (c, qabs ((quad) G[3][j] - (quad) pj[j]) <= tol, "nextFrame-near/origin", TN<T>::n () << " origin row of " << mstr (G, 4) << " is not pj=" << vstr (pj, 3));
+            }
+            if (!(sn > 0))
+            {
+                c.label (NFL_EXACTLY_PARALLEL_AFTER_ROUNDING);
+                break;
+            }
+            // the angle goes through acosf: error eps_float / sin (theta) in both element types (see frames_*), and for
+            // nearly parallel tangents never more than ~2 sqrt (eps_float) (next_cap: the rotation may be skipped or be
+            // one about a noise axis); near pi the axis ti x tj adds eps / sin (theta).
+            // Measured (units of float eps): float 2.4 (K<3), 3.4 K (K>=30); double 0.56, 0.50 K; nearly parallel
+            // tangents: 0.29 of the cap (float), 0.12 (double)
+            FT   tr     = ft (EPSF (), 20, 12, 1 / sn);
+            bool capped = tc == 0 && tr.tol () > next_cap ();
+            if (capped) tr = FT{ next_cap (), 0, 1, 0 };
+            if (!label_bound (c, tr)) break;
+            quad  th    = atan2q (len (cross (tiq, tjq)), dot (tiq, tjq));
+            Q3    ax    = cross (tiq, tjq);
+            quad  mp[3] = { -(quad) pi.x, -(quad) pi.y, -(quad) pi.z }, pp[3] = { (quad) pj.x, (quad) pj.y, (quad) pj.z };
+            QM<4> E     = QM<4>::from (Mi) * E_translation<4> (mp) * rodrigues_rowvec<4> (ax.x, ax.y, ax.z, th) * E_translation<4> (pp);
+            check_slots<T> (c, capped ? "nextFrame-near/nearly-parallel-rotation" : "nextFrame-near/rotation", "nextFrame vs Mi * T(-pi) * R(ti->tj) * T(pj)", G, E, 3, tr);
+            check_row<T> (c, capped ? "nextFrame-near/nearly-parallel-tangent" : "nextFrame-near/tangent", "nextFrame x axis vs tj/|tj|", G, 0, unit (tjq), tr);
+            break;
+        }
+    }
+}
+#define C09_NEARF_RULE                                                                                                 \
+    "frame builders with direction pairs at an angle of 2^-k, pi/2 +- 2^-k or pi - 2^-k, k = 4..digits+3 (second vector constructed in quad about an exact or random perpendicular, rounded); first direction a coordinate axis, small integers, a unit vector scaled by 1 +- 2^-k or generic; second of length 1 +- 2^-k, 2^j or generic; origins / points from {0, +-1, nice, up to 2^20}; rotationMatrixWithUpDir: from generic, within 2^-k of the y axis or along y; bounds eps (c1 + c2 / sin(angle)) as frames_* with sin(angle) from quad on the rounded inputs, nextFrame capped at 6 sqrt(eps_float) for nearly parallel tangents; pairs exactly parallel after rounding: degenerate-case checks (alignZAxisWithTargetDir, rotationMatrixWithUpDir) or finiteness / origin only; every case non-trivial"
+VP_RANDOM (frames_near_f, 300000, 6000000, C09_NEARF_RULE) { frames_near_case<float> (c); }
+VP_LABELS (frames_near_f, C09_NEARF_LABELS)
+VP_REQUIRE_LABELS (frames_near_f, "computeLocalFrame", "alignZAxisWithTargetDir", "rotationMatrixWithUpDir", "rotationMatrix", "firstFrame", "nextFrame", "angle_2^-k", "angle_pi/2+-2^-k", "angle_pi-2^-k", "k_4..12", "k_13..digits-1", "k_digits..digits+3", "from_near_y_axis", "from_along_y", "bound_below_1e-3")
+VP_RANDOM (frames_near_d, 300000, 6000000, C09_NEARF_RULE) { frames_near_case<double> (c); }
+VP_LABELS (frames_near_d, C09_NEARF_LABELS)
+VP_REQUIRE_LABELS (frames_near_d, "computeLocalFrame", "alignZAxisWithTargetDir", "rotationMatrixWithUpDir", "rotationMatrix", "firstFrame", "nextFrame", "angle_2^-k", "angle_pi/2+-2^-k", "angle_pi-2^-k", "k_4..12", "k_13..digits-1", "k_digits..digits+3", "from_near_y_axis", "from_along_y", "bound_below_1e-3")
